@@ -25,7 +25,7 @@ RULE = ('states = (implementation term list, reference value) reached by AddTerm
         'Sector-variable histories: AddTermToEquation interleaved with ReplaceTokensFromLookup (renaming) and SetEquationRightHandSide (replacement of the '
         'leading expression), reference = sum of the renamed pieces since the last replacement.')
 ASSUMPTIONS = [
-    'leading expressions are arithmetic (no comparisons/conditionals)',
+    'leading expressions are arithmetic, or arithmetic on comparisons of names and numbers (no conditionals)',
     'three valuations with distinct primes stand for "every assignment" (value of a Laurent polynomial of degree <= 2 per variable)',
     'an element with an interior + (x+y) passed to create_equation_from_terms may be rejected with an exception but not mis-joined',
 ]
@@ -38,7 +38,8 @@ TERMS = ['x', '+x', '-x', 'y', '-y', '2', '-2.5', 'x*y', '-x*y', 'x/y', '(x)', '
          '-(x*y)', ' ( x ) ', '2*x', '-y*x', 'y/x', 'x/2', '-2/x',
          '0.1234567', '-100000.25']        # constants with more significant digits than a %g keeps
 BLOBS = ['x', '-x', 'x+y', 'x-y', '2*x', 'x*y', '(x+y)*2', '0.', '', 'y', '-2.5', 'x/y',
-         '(x+y)*(x-y)', '(x-y)', '1234567.25']     # opaque expressions that start AND end with a bracket; a long constant
+         '(x+y)*(x-y)', '(x-y)', '1234567.25',     # opaque expressions that start AND end with a bracket; a long constant
+         'y*(x >= 3)', '(x <= y) + (x == 3)*2']     # comparisons (x = 3 in the first valuation: on the boundary)
 LEADS = ([('none', None), ('emptylist', None)] + [('blob', b) for b in BLOBS]
          + [('strrhs', b) for b in BLOBS if b != ''] + [('lhs_eq', b) for b in BLOBS if b != ''])
 LIST_ELEMS = ['x', '+x', '-x', ' - y', '2*x', 'x*y', '1e+3*x', '+1e+3', '(x+y)', 'x+y', '-(x)', ' y ']
